@@ -113,14 +113,18 @@ def create (t : Tab) (users : Pk → List Pk) (p : Pk) (n : Nm) (d : Def) : Tab 
   let t1 := (t.setDef p n (some d)).setCell p n (some p)
   if d.exp then t1.push users p n else t1
 
-/-- `Remove` / `Undefine` of `p`'s own entry: the entry leaves `p`'s table and its users' tables;
-    `p` (and they) fall back to what the use graph still offers. Not own: nothing happens. -/
+/-- `Remove` / `Undefine`: the entry leaves `p`'s table and `p` falls back to what the use graph
+    offers. An own entry object disappears and also leaves the tables of `p`'s users (they fall
+    back too); an inherited entry stays with its owner, so the name remains visible. -/
 def remove (t : Tab) (uses users : Pk → List Pk) (p : Pk) (n : Nm) : Tab :=
-  if t.cell p n = some p then
-    let t1 := (t.setDef p n none).setCell p n none
-    let t2 := t1.setCell p n (t1.inheritFirst (uses p) n)
-    t2.retract uses users p n
-  else t
+  match t.cell p n with
+  | none => t
+  | some o =>
+    if o = p then
+      let t1 := (t.setDef p n none).setCell p n none
+      let t2 := t1.setCell p n (t1.inheritFirst (uses p) n)
+      t2.retract uses users p n
+    else t.setCell p n (t.inheritFirst (uses p) n)
 
 /-- `Export` of `p`'s own entry: set the flag, offer it to the users. -/
 def exportOwn (t : Tab) (users : Pk → List Pk) (p : Pk) (n : Nm) : Tab :=
@@ -293,19 +297,25 @@ def run (s : State) (ops : List Op) : State := ops.foldl step s
   The graph is: which package owns which definitions (`defs`, with their export flags) and the
   use lists. `resolve` never reads a table cell. -/
 
+/-- package `q` has an exported definition of `n` -/
+def isExp (defs : Pk → Nm → Option Def) (n : Nm) (q : Pk) : Bool :=
+  match defs q n with
+  | some d => d.exp
+  | none => false
+
 /-- own definition, else the exported definition of the first directly used package that has one,
     else nothing -/
 def resolve (defs : Pk → Nm → Option Def) (uses : Pk → List Pk) (p : Pk) (n : Nm) : Option (Pk × Def) :=
   match defs p n with
   | some d => some (p, d)
   | none =>
-    match (uses p).find? (fun q => match defs q n with | some d => d.exp | none => false) with
+    match (uses p).find? (isExp defs n) with
     | none => none
     | some q => (defs q n).map (fun d => (q, d))
 
 /-- the packages `p` uses that have an exported definition of `n` -/
 def candidates (defs : Pk → Nm → Option Def) (uses : Pk → List Pk) (p : Pk) (n : Nm) : List Pk :=
-  (uses p).filter (fun q => match defs q n with | some d => d.exp | none => false)
+  (uses p).filter (isExp defs n)
 
 /-- value of a variable / body of a function as `resolve` sees it -/
 def resolveVal (defs : Pk → Nm → Option Def) (uses : Pk → List Pk) (p : Pk) (n : Nm) : Option Nat :=
